@@ -469,8 +469,17 @@ def build():
     C.fn("Driver._pulse_now", params=dict(pulse_ms=Int, pulse_power=Num), emits=emit_pulse_now,
          requires=VERIFIED_PULSE,
          ensures=[("software-timed enable => switch-off scheduled for pulse_ms",
-                   "implies(issued_hw_enable(), timed_disable_pending() and timed_disable_ms() == pulse_ms)")],
+                   "implies(issued_hw_enable(), timed_disable_pending() and timed_disable_ms() == pulse_ms)"),
+                  ("PN0: the software-timed enable (the coil is switched on and HELD until a timer switches it off) is only "
+                   "used for a pulse that is too long for the platform's own pulse: a pulse of 0 ms never switches a coil "
+                   "on with a hold - not even for the moment until a 0 ms timer fires, and not on a coil whose "
+                   "configuration forbids holding",
+                   "implies(issued_hw_enable() and not self.config['pulse_with_timed_enable'], "
+                   "pulse_ms > self.platform.features['max_pulse'])")],
          modifies=["self.delay.pending"], raises=LIMERR)
+
+    C.finite_checks.append(common.native_demo_check(
+        "c08_pulse_0_holds_coil.py", "pulse(0) sends no enable / hold command to the platform"))
 
     def timed_disable_ms(I):
         this = I.frames[0].env["self"].ref
